@@ -9,8 +9,8 @@ if __name__ == "__main__":
     import gentie
     setup_repo_path()
     sys.exit(run_check(
-        "C02", lean_modules=["Pamiq.Props.C02", "Pamiq.Props.C02Live", "Pamiq.Props.C02Term", "Pamiq.Lemmas.ProtoCtl"],
-        required_theorems=["Pamiq.Proto.cedge_sound", "Pamiq.Proto.shutdown_wakes", "Pamiq.Proto.no_pause_after_shutdown", "Pamiq.Proto.final_save_last", "Pamiq.Proto.done_is_final", "Pamiq.Proto.bg_rank_decreases", "Pamiq.Proto.bg_enabled_after_shutdown", "Pamiq.Proto.resume_wakes_all", "Pamiq.Proto.first_attempt_no_timeout", "Pamiq.Proto.shutdown_never_blocks", "Pamiq.Proto.pause_attempt_never_stuck", "Pamiq.Proto.attempts_bounded",
+        "C02", lean_modules=["Pamiq.Props.C02", "Pamiq.Props.C02Live", "Pamiq.Props.C02Term", "Pamiq.Lemmas.ProtoCtl", "Pamiq.Lemmas.ProtoBg"],
+        required_theorems=["Pamiq.Proto.cedge_sound", "Pamiq.Proto.bedge_sound", "Pamiq.Proto.shutdown_wakes", "Pamiq.Proto.no_pause_after_shutdown", "Pamiq.Proto.final_save_last", "Pamiq.Proto.done_is_final", "Pamiq.Proto.bg_rank_decreases", "Pamiq.Proto.bg_enabled_after_shutdown", "Pamiq.Proto.resume_wakes_all", "Pamiq.Proto.first_attempt_no_timeout", "Pamiq.Proto.shutdown_never_blocks", "Pamiq.Proto.pause_attempt_never_stuck", "Pamiq.Proto.attempts_bounded",
                            "Pamiq.Proto.shutdown_work_bounded", "Pamiq.Proto.shutdown_work_le", "Pamiq.Proto.no_bg_deadlock_after_shutdown",
                            "Pamiq.Proto.ctl_releases_lock_when_unwound", "Pamiq.Proto.launch_epilogue_never_blocks", "Pamiq.Proto.shutdown_stable",
                            "Pamiq.Proto.never_started_is_final", "Pamiq.Proto.joined_is_settled", "Pamiq.Proto.drain_threads",
